@@ -48,9 +48,17 @@ def design(ctx):
         ("matrix", lambda: tlc.run(ctx, af.MODULE, "AtomicFile_mc_matrix.cfg", workers=1, timeout=600, name="mc_matrix",
                                    extra_args=["-continue"])),
     ]
-    r = af.run_parallel(jobs, 5)
+    if not ctx.quick:      # a third name (179 182 distinct / 1 852 510 generated when measured)
+        jobs.append(("any3", lambda: tlc.run(ctx, af.MODULE, "AtomicFile_mc_any3.cfg", workers=w, timeout=3000,
+                                             name="mc_any3")))
+    r = af.run_parallel(jobs, 6)
 
     mc, anyr = r["writer"], r["any"]
+    any3_states = any3_trans = 0
+    if "any3" in r:
+        if not r["any3"].ok:
+            raise InfraError("spec-level counterexample in AnySpec with 3 names: %s" % r["any3"].summary())
+        any3_states, any3_trans = r["any3"].distinct, r["any3"].generated
     if not mc.ok:
         raise InfraError("spec-level counterexample in WriterSpec: %s" % mc.summary())
     if not anyr.ok:
@@ -89,6 +97,7 @@ def design(ctx):
                                       "AnyMaxInodes": 3, "AnyMaxHist": 4, "AnyMaxLen": 2, "AnyMaxSteps": any_steps}},
         "writer_states": mc.distinct, "writer_transitions": mc.generated,
         "any_states": anyr.distinct, "any_transitions": anyr.generated, "any_wall_s": round(anyr.wall, 1),
+        "any3_states": any3_states, "any3_transitions": any3_trans,
         "action_coverage": {"WriterSpec": tlc.coverage_summary(mc), "AnySpec": tlc.coverage_summary(anyr)},
         "spec_negative_controls": {
             "writer_variant_violates": expect_violation,
@@ -97,7 +106,7 @@ def design(ctx):
         "spec_informational": "the nodirsync variant satisfies OldOrNew/NoEarlyExposure (C06) and violates only the "
                               "stronger DurableWhenDone; the good variant satisfies all three",
     }
-    return info, mc.distinct + anyr.distinct, mc.generated + anyr.generated
+    return info, mc.distinct + anyr.distinct + any3_states, mc.generated + anyr.generated + any3_trans
 
 
 def run(ctx):
@@ -172,12 +181,27 @@ def run(ctx):
                 else:
                     fsync_file += 1
         sigs.setdefault(ct.rec["variant"] + (":old" if ct.rec["old"] else ":noold"), " ".join(ct.sig))
+    # durability once the call has returned (NOT part of the statement): is the replacing rename followed by an
+    # fsync of the directory?
+    renaming = synced = 0
+    for ct in cts:
+        last_ren = max([i for i, e in enumerate(ct.events)
+                        if e["ev"] == "Rename" and e["to"] == ct.rec["target"]] or [-1])
+        if last_ren < 0:
+            continue
+        renaming += 1
+        if any(e["ev"] == "Fsync" and e.get("what") == "dir" for e in ct.events[last_ren + 1:]):
+            synced += 1
+    if synced < renaming:
+        extra_notes.append("%d of %d replacing renames are not followed by an fsync of the directory: New may be lost "
+                           "after the call returned (Old survives). Allowed by the C06 statement, reported for "
+                           "information" % (renaming - synced, renaming))
     if not violations:
         for k in ("Open", "Write", "Fsync", "Rename", "OpenDir", "Close", "Symlink", "Meta", "Unlink"):
             if hist[k] == 0:
                 raise InfraError("vacuity guard: no %s event in any real trace" % k)
-        if fsync_file == 0 or fsync_dir == 0:
-            raise InfraError("vacuity guard: fsync(file)=%d fsync(dir)=%d in the real traces" % (fsync_file, fsync_dir))
+        if fsync_file == 0:
+            raise InfraError("vacuity guard: no fsync of a file in the real traces")
     variants = sorted({ct.rec["variant"] for ct in cts})
     need = {"awf-small", "awf-large", "awf-empty", "aw-stream", "aw-fromfile", "awf-chown", "af-mtime", "af-commitas",
             "af-cancel", "awf-follow", "rename", "symlink", "state-ckpt", "overlord-ckpt"}
@@ -225,6 +249,7 @@ def run(ctx):
         "real_syscalls_ignored_in_case_windows": sum(ct.dropped for ct in cts),   # fcntl, failed calls, other directories
         "real_event_histogram": dict(sorted(hist.items())),
         "real_fsync_file": fsync_file, "real_fsync_dir": fsync_dir,
+        "replacing_renames": renaming, "replacing_renames_followed_by_dir_fsync": synced,
         "trace_states_distinct": vstats["distinct"], "trace_states_generated_incl_crash_successors": vstats["generated"],
         "trace_tlc_runs": vstats["tlc_runs"], "unexamined_cases": vstats["unexamined_cases"],
         "observed_order_per_variant": sigs,
